@@ -48,7 +48,7 @@ def problem_spec(draw):
     m = draw(st.integers(1, 3))
     crit = [draw(st.sampled_from(["minimize", "maximize", None])) for _ in range(m)]
     ncon = draw(st.sampled_from([0, 0, 1, 2]))
-    ret = draw(st.sampled_from(["list", "tuple"]))
+    ret = draw(st.sampled_from(["list", "list", "tuple"]))
     return {"n": n, "m": m, "crit": crit, "ncon": ncon, "ret": ret}
 
 
@@ -83,7 +83,7 @@ def batch_history(draw):
             old = draw(st.lists(st.integers(0, len(designs) - 1), max_size=3))
         order = draw(st.permutations(old + fresh)) if (old or fresh) else []
         ops.append({"batch": list(order)})
-    return {"spec": spec, "designs": designs, "ops": ops}
+    return {"spec": spec, "designs": designs, "ops": ops, "workers": draw(st.sampled_from([1, 1, 2, 3]))}
 
 
 def _cost_obj(c):
@@ -123,6 +123,16 @@ def _signs(spec):
     return [-1 if c == "maximize" else 1 for c in spec["crit"]]
 
 
+def _num(v):
+    """float value of a stored cost, or None if it is not a real number (e.g. a nested tuple)"""
+    try:
+        if isinstance(v, (list, tuple, dict, str, bytes)) or getattr(v, "shape", ()) not in ((), None):
+            return None
+        return float(v)
+    except (TypeError, ValueError):
+        return None
+
+
 def _check_individual(clause, ind, d, spec):
     from artap.individual import Individual
     m = spec["m"]
@@ -131,15 +141,18 @@ def _check_individual(clause, ind, d, spec):
     if list(ind.vector) != list(d["v"]):
         raise Violation(clause, "vector-changed", "vector %r became %r" % (d["v"], ind.vector))
     exp = [c["v"] for c in d["c"]]
-    got = list(ind.costs)
-    if len(got) != m or any(not (float(a) == float(b)) for a, b in zip(got, exp)):
-        raise Violation(clause, "costs-not-objective-output", "design %r: costs %r, objective returned %r" % (
-            d["v"], got, exp))
+    try:
+        got = list(ind.costs)
+    except TypeError:
+        got = [ind.costs]
+    if len(got) != m or any(_num(a) is None or _num(a) != float(b) for a, b in zip(got, exp)):
+        raise Violation(clause, "costs-not-objective-output:%s" % spec["ret"], "design %r: costs %r, objective returned "
+                        "%r (as %s)" % (d["v"], got, exp, spec["ret"]))
     cs = ind.costs_signed
     if len(cs) != m + 1:
         raise Violation(clause, "signed-length", "costs_signed %r for m=%d" % (cs, m))
     for j, (s, c, sg) in enumerate(zip(cs[:-1], exp, _signs(spec))):
-        if not O.round_relation_ok(float(s), float(c), sg):
+        if _num(s) is None or not O.round_relation_ok(_num(s), float(c), sg):
             raise Violation(clause, "signed-cost:%s" % ("max" if sg < 0 else "min"),
                             "objective %d cost %r criteria %r -> signed %r" % (j, c, spec["crit"][j], s))
     feas = all(g < 0 for g in d["g"]) if spec["ncon"] else None
@@ -159,8 +172,11 @@ def check_batches(case):
     prob = _mk(spec, designs, log)
     classes = set()
     try:
+        workers = case.get("workers", 1)
         with guard("batches"):
             alg = DummyAlgorithm(prob)
+            if workers > 1:
+                alg.options["max_processes"] = workers      # joblib threads: every design still exactly once
         inds = {}
         done = set()
         batches = []
@@ -171,6 +187,8 @@ def check_batches(case):
             else:
                 batch = op["batch"]
             batches.append(batch)
+            if workers > 1:
+                batch = list(dict.fromkeys(batch))   # no caller hands the same object twice to concurrent workers
             objs = []
             for i in batch:
                 if i not in inds:
@@ -189,7 +207,7 @@ def check_batches(case):
                 raise Violation("batches", "call-log:%s" % kind, "batch %r (already evaluated: %r) caused objective calls "
                                 "%r" % ([designs[i]["v"] for i in batch], [designs[i]["v"] for i in batch if i in done],
                                         calls))
-            if calls != [designs[i]["v"] for i in new]:
+            if workers == 1 and calls != [designs[i]["v"] for i in new]:
                 raise Violation("batches", "call-order", "calls %r, batch order %r" % (calls, [designs[i]["v"] for i in new]))
             done.update(batch)
             for i in done:
@@ -213,6 +231,7 @@ def check_batches(case):
         dispose(prob)
     if any(c == "maximize" for c in spec["crit"]):
         classes.add("maximised")
+    classes.add("workers%d" % case.get("workers", 1))
     if any(c["k"] == "boundary" for d in designs for c in d["c"]):
         classes.add("rounding-boundary")
     if spec["ncon"] and any(not all(g < 0 for g in d["g"]) for d in designs):
@@ -316,7 +335,7 @@ def scalar_cases(draw):
     costs = [draw(cost_value()) for _ in pts]
     as_array = draw(st.booleans())
     return {"n": n, "crit": crit, "pts": pts, "costs": costs, "array": as_array,
-            "via": draw(st.sampled_from(["direct", "scipy-scripted"]))}
+            "via": draw(st.sampled_from(["direct", "direct", "scipy-scripted", "scipy-scripted", "direct-worstcase"]))}
 
 
 def check_scalar(case):
@@ -333,6 +352,8 @@ def check_scalar(case):
         k = len(log)
         log.append(list(ind.vector))
         return [seq[k]]
+    if case["via"] == "direct-worstcase":
+        return _check_scalar_worstcase(case)
     ps = [{"name": "x%d" % i, "bounds": [-10.0, 10.0], "initial_value": 0.5} for i in range(n)]
     c = {"name": "f"}
     if crit is not None:
@@ -375,6 +396,40 @@ def check_scalar(case):
         dispose(prob)
     return {"nt": crit == "maximize" or any(c["k"] == "boundary" for c in case["costs"]),
             "classes": [case["via"], str(crit), "ndarray" if case["array"] else "list"]}
+
+
+def _check_scalar_worstcase(case):
+    """evaluate_scalar of the worst-case evaluator: the queried point and each of its 2n neighbours is evaluated
+    exactly once (an already evaluated design is never sent to the objective again)"""
+    from artap.algorithm import EvaluatorType
+    from artap.algorithm_genetic import GeneticAlgorithm
+    n = case["n"]
+    log = []
+
+    def ev(ind):
+        log.append(tuple(float(v) for v in ind.vector))
+        return [sum(float(v) for v in ind.vector)]
+    ps = [{"name": "x%d" % i, "bounds": [-10.0, 10.0], "tol": 0.25} for i in range(n)]
+    prob = make_problem(ps, [{"name": "f", "criteria": "minimize"}], ev)
+    try:
+        with guard("scalar"):
+            alg = GeneticAlgorithm(prob, evaluator_type=EvaluatorType.WORST_CASE)
+        for p in case["pts"]:
+            before = len(log)
+            with guard("scalar"):
+                alg.evaluator.evaluate_scalar([float(v) for v in p])
+            calls = log[before:]
+            key = tuple(float(v) for v in p)
+            if calls.count(key) != 1:
+                raise Violation("scalar", "worst-case-scalar:point-evaluated-%d-times" % calls.count(key),
+                                "evaluate_scalar(%r) under the worst-case evaluator called the objective %d times for "
+                                "the queried point (calls %r)" % (p, calls.count(key), calls))
+            if len(calls) != 1 + 2 * n:
+                raise Violation("scalar", "worst-case-scalar:call-count", "%d objective calls, expected %d" % (
+                    len(calls), 1 + 2 * n))
+    finally:
+        dispose(prob)
+    return {"nt": True, "classes": ["direct-worstcase"]}
 
 
 # ---------------------------------------------------------------- real optimisers, metamorphic max f == min -f
